@@ -40,9 +40,9 @@ def benign():
 
 def seeded():
     sd = os.path.join(HERE, "seeded")
-    print("\n| seeded change | what it is | needs | confirmed | caught by (quick tier) |")
-    print("|---|---|---|---|---|")
-    for name in sorted(os.listdir(sd)):
+    print("\n| seeded change | what it is | needs | confirmed | caught by (quick tier) | first run, before strengthening |")
+    print("|---|---|---|---|---|---|")
+    for name in sorted(os.listdir(sd), key=lambda n: (n.split("-")[0], int(n.split("-")[1])) if "-" in n else (n, 0)):
         mp = os.path.join(sd, name, "meta.json")
         if not os.path.exists(mp):
             continue
@@ -50,7 +50,9 @@ def seeded():
         ok = all(m["confirmed"].values())
         own = m["breaks_property"]
         cb = ", ".join(("**%s**" % c) if c == own else c for c in m["caught_by"] or [])
-        print(f"| {name} | {m['change']} | {m['needs_to_manifest']} | {'yes' if ok else 'NO'} | {cb or 'none'} |")
+        b = m.get("caught_by_before_strengthening")
+        first = "not recorded" if b is None else (", ".join(("**%s**" % c) if c == own else c for c in b) or "none")
+        print(f"| {name} | {m['change']} | {m['needs_to_manifest']} | {'yes' if ok else 'NO'} | {cb or 'none'} | {first} |")
 
 
 if __name__ == "__main__":
